@@ -35,7 +35,7 @@ With(t, e) == [x \in DOMAIN sessions \cup {t} |-> IF x = t THEN e ELSE sessions[
 Q(ln) == [method |-> ln.method, ctype |-> ln.ctype, body |-> ln.body, cookie |-> ln.cookie,
           basic |-> ln.basic, spelling |-> "canonical"]
 
-E(ln) == [disp |-> "route", pat |-> ln.matched, root |-> ln.root, loginPage |-> ln.loginPage,
+E(ln) == [disp |-> "route", norm |-> FALSE, pat |-> ln.matched, root |-> ln.root, loginPage |-> ln.loginPage,
           asset |-> ln.asset, installPfx |-> ln.installPfx, assetsPfx |-> ln.assetsPfx]
 
 \* Admissible classes for a request line.
